@@ -216,6 +216,12 @@ def run(tier, seed):
                 stats["re_evaluated"] += 1
         if not what and recompletion:
             what = recompletion
+        if what and not what.startswith("rounding-recompletion"):
+            # a non-zero value within a few units of the printed precision: rounding it changes it by more than 1 %, and where such a
+            # value governs a ratio (cogenerated electricity, output energy shares) the saved file cannot evaluate alike
+            tiny = [Fraction(v) for e in c["data"] for v in e["values"] if not isinstance(v, str) and 0 < abs(Fraction(v)) < Fraction(1, 2)]
+            if tiny:
+                what = "ill-conditioned: a value of %s kWh is written with 2 decimals; %s" % (core.fstr(min(tiny, key=abs)), what)
         if what:
             cls = None
             for kf in known:
